@@ -1032,6 +1032,41 @@ func (x *Exec) loop(s ast.Stmt, st *State, cx *Ctx, k func(*State)) {
 			st.assume(app("=", app("lsum", app("sl_off", rangeVal.T), "0", app("select", a.T, app("sl_arr", rangeVal.T))), "0"))
 			st.assume(app("=", app("pset", app("select", a.T, app("sl_arr", rangeVal.T)), app("sl_off", rangeVal.T), "0"), "((as const (Array Int Bool)) false)"))
 		}
+		// a counted loop "for i := 0; i < len(s); i++" over an integer slice gets the same facts
+		// about the list sum / element set of s as "for i := range s"
+		countedSlice := func(s2 *State) (Val, bool) {
+			if forS == nil || counter == nil || forS.Cond == nil {
+				return Val{}, false
+			}
+			be, ok := ast.Unparen(forS.Cond).(*ast.BinaryExpr)
+			if !ok || be.Op != token.LSS || !x.countedAndBounded(forS, counter) {
+				return Val{}, false
+			}
+			call, ok := ast.Unparen(be.Y).(*ast.CallExpr)
+			if !ok || len(call.Args) != 1 {
+				return Val{}, false
+			}
+			if id, ok := call.Fun.(*ast.Ident); !ok || id.Name != "len" {
+				return Val{}, false
+			}
+			x.mute = true
+			n0 := len(x.errs)
+			sv := x.eval(s2.fork(), call.Args[0])
+			x.mute = false
+			if len(x.errs) > n0 || sv.S != "Slice" {
+				x.errs = x.errs[:n0]
+				return Val{}, false
+			}
+			if es, _ := x.elemSort(sv); es != "Int" {
+				return Val{}, false
+			}
+			return sv, true
+		}
+		if sv, ok := countedSlice(st); ok {
+			a := x.arrComp(st, "Int")
+			st.assume(app("=", app("lsum", app("sl_off", sv.T), "0", app("select", a.T, app("sl_arr", sv.T))), "0"))
+			st.assume(app("=", app("pset", app("select", a.T, app("sl_arr", sv.T)), app("sl_off", sv.T), "0"), "((as const (Array Int Bool)) false)"))
+		}
 		checkInvs(st, hidden, "inv-entry")
 		// havoc
 		ms := x.modAnalysis(s, st)
@@ -1140,7 +1175,7 @@ func (x *Exec) loop(s ast.Stmt, st *State, cx *Ctx, k func(*State)) {
 					if be.Op == token.LEQ {
 						lim = app("+", b.T, "1")
 					}
-					return or(app("<=", cv.T, lim), app("=", cv.T, counterStart))
+					return and(app(">=", cv.T, counterStart), or(app("<=", cv.T, lim), app("=", cv.T, counterStart)))
 				}
 				h.assume(counterInv(h))
 			}
@@ -1165,6 +1200,21 @@ func (x *Exec) loop(s ast.Stmt, st *State, cx *Ctx, k func(*State)) {
 				iter.assume(c.T)
 				c2 := x.eval(exit, forS.Cond)
 				exit.assume(not(c2.T))
+				if sv, ok := countedSlice(iter); ok {
+					if cv, ok := iter.vars[counter]; ok {
+						a := x.arrComp(iter, "Int")
+						inner := app("select", a.T, app("sl_arr", sv.T))
+						off := app("sl_off", sv.T)
+						i := app("-", cv.T, counterStart) // the definitions below hold for every index >= 0
+						iter.assume(app(">=", i, "0"))
+						iter.assume(app("=", app("pset", inner, off, app("+", i, "1")), app("store", app("pset", inner, off, i), app("select", inner, app("at", off, i)), "true")))
+						iter.assume(app("=", app("pset", inner, off, "0"), "((as const (Array Int Bool)) false)"))
+						exit.assume(app("=", app("pset", inner, off, "0"), "((as const (Array Int Bool)) false)"))
+						iter.assume(app("=", app("lsum", off, "0", inner), "0"))
+						iter.assume(app("=", app("lsum", off, app("+", i, "1"), inner), app("+", app("lsum", off, i, inner), app("select", inner, app("at", off, i)))))
+						exit.assume(app("=", app("lsum", off, "0", inner), "0"))
+					}
+				}
 			} else {
 				exit = nil
 			}
